@@ -264,6 +264,170 @@ theorem ghost_double_release_counterexample :
     accounts (run ⟨.ghost, true, false⟩ (init 1 1) [.fwdBwd 2, .signal true, .step, .step]).log
       = [(1, 1)] := by decide
 
+/-! ### … but holds under the usage discipline of every training loop -/
+
+/-- usage discipline under which the ghost-clipping optimizer is safe as coded: between two
+`optimizer.step()` calls there is a backward pass or a gradient clearing (what every training loop,
+with or without BatchMemoryManager, does). `armed` = "p.grad has already been accumulated". -/
+def disciplined : Bool → List Op → Bool
+  | _, [] => true
+  | armed, .step :: ops => !armed && disciplined true ops
+  | _, .fwdBwd _ :: ops => disciplined false ops
+  | _, .optZeroGrad :: ops => disciplined false ops
+  | _, .modZeroGrad :: ops => disciplined false ops
+  | armed, .signal _ :: ops => disciplined armed ops
+  | armed, .setSigma _ :: ops => disciplined armed ops
+  | armed, .setClip _ :: ops => disciplined armed ops
+
+def armedAfter (armed : Bool) : Op → Bool
+  | .step => true
+  | .fwdBwd _ => false
+  | .optZeroGrad => false
+  | .modZeroGrad => false
+  | _ => armed
+
+def pendG (s : St) (armed : Bool) : List Nat :=
+  pendSummed s.summed ++ (if armed then [] else s.pgrad.getD [])
+
+def InvG (s : St) (armed : Bool) : Prop :=
+  (rel s ++ pendG s armed).Nodup ∧ ∀ t ∈ rel s ++ pendG s armed, t < s.next
+
+theorem pendSummed_optZero_sublist (s : St) : (pendSummed (optZero s).summed).Sublist (pendSummed s.summed) := by
+  simp only [optZero]
+  by_cases h : s.lastSkipped <;> simp [h, pendSummed]
+
+theorem pendSummed_sublist_pendG (s : St) (armed : Bool) : (pendSummed s.summed).Sublist (pendG s armed) := by
+  simp [pendG]
+
+theorem invG_of_sublist {s s' : St} {armed armed' : Bool} (h : InvG s armed)
+    (hr : rel s' = rel s) (hp : (pendG s' armed').Sublist (pendG s armed)) (hn : s'.next = s.next) :
+    InvG s' armed' := by
+  obtain ⟨hnd, hlt⟩ := h
+  have hsub : (rel s' ++ pendG s' armed').Sublist (rel s ++ pendG s armed) := by
+    rw [hr]; exact List.Sublist.append (List.Sublist.refl _) hp
+  exact ⟨hnd.sublist hsub, fun t ht => by rw [hn]; exact hlt t (hsub.subset ht)⟩
+
+theorem finishStep_ghost_inv (c : Cfg) (s : St) (g : List Nat) (k : Nat)
+    (hg : s.pgrad = some g) (h : InvG s false) :
+    InvG (finishStep c s (accumulateInto s.summed g) s.gs k).1 true := by
+  have hpend : pendG s false = pendSummed s.summed ++ g := by simp [pendG, hg]
+  unfold finishStep
+  cases hq : popQueue s.queue with
+  | mk skip q' =>
+  simp only
+  by_cases hskip : skip
+  · simp only [hskip, if_true]
+    refine invG_of_sublist h (by simp [rel]) ?_ rfl
+    rw [hpend]
+    simp only [pendG, if_true, List.append_nil]
+    exact pendSummed_accumulate_sublist _ _
+  · simp only [hskip, Bool.false_eq_true, if_false]
+    by_cases hp : (accumulateInto s.summed g).processed
+    · simp only [hp, if_true]
+      refine invG_of_sublist h (by simp [rel]) ?_ rfl
+      simp [pendG, pendSummed, hp]
+    · simp only [hp, Bool.false_eq_true, if_false]
+      have hp' : (accumulateInto s.summed g).processed = false := by simpa using hp
+      have htoks := pending_accumulate_unprocessed s.summed g hp'
+      split
+      · refine invG_of_sublist h (by simp [rel]) ?_ rfl
+        simp [pendG, pendSummed]
+      · obtain ⟨hnd, hlt⟩ := h
+        have hrel : ∀ (st : St), st.log = s.log ++ [.noise s.sigma s.clip] ++ [.account s.sigma k, .inner (accumulateInto s.summed g).toks] →
+            rel st = rel s ++ pendG s false := by
+          intro st hst
+          simp [rel, hst, hpend, htoks]
+        refine ⟨?_, ?_⟩
+        · simp only [pendG, pendSummed, if_true, List.append_nil]
+          rw [hrel _ (by simp)]
+          exact hnd
+        · intro t ht
+          simp only [pendG, pendSummed, if_true, List.append_nil] at ht
+          rw [hrel _ (by simp)] at ht
+          exact hlt t ht
+
+theorem invG_step (c : Cfg) (hc : c.kind = .ghost) (s : St) (o : Op) (armed : Bool)
+    (hd : o = .step → armed = false) (h : InvG s armed) :
+    InvG (stepOp c s o).1 (armedAfter armed o) := by
+  cases o with
+  | signal b => exact h
+  | setSigma v => exact h
+  | setClip v => exact h
+  | optZeroGrad =>
+    refine invG_of_sublist h rfl ?_ rfl
+    simp only [stepOp, armedAfter, pendG, Bool.false_eq_true, if_false]
+    have : ((optZero s).pgrad.getD []) = [] := by
+      simp only [optZero]; cases s.pgrad <;> simp
+    rw [this, List.append_nil]
+    exact (pendSummed_optZero_sublist s).trans (pendSummed_sublist_pendG s armed)
+  | modZeroGrad =>
+    refine invG_of_sublist h rfl ?_ rfl
+    simp only [stepOp, armedAfter, pendG, Bool.false_eq_true, if_false]
+    have : (Option.map (fun _ => ([] : List Nat)) s.pgrad).getD [] = [] := by cases s.pgrad <;> simp
+    rw [this, List.append_nil]
+    exact pendSummed_sublist_pendG s armed
+  | fwdBwd n =>
+    obtain ⟨hnd, hlt⟩ := h
+    simp only [stepOp, hc, armedAfter]
+    have hsub : (rel s ++ pendSummed (optZero s).summed).Sublist (rel s ++ pendG s armed) :=
+      List.Sublist.append (List.Sublist.refl _) ((pendSummed_optZero_sublist s).trans (pendSummed_sublist_pendG s armed))
+    have hrel : rel { optZero s with pgrad := some (fresh s.next n), next := s.next + n } = rel s := by
+      simp [rel, optZero]
+    refine ⟨?_, ?_⟩
+    · rw [hrel]
+      simp only [pendG, Bool.false_eq_true, if_false, Option.getD_some]
+      rw [← List.append_assoc]
+      refine List.nodup_append.mpr ⟨hnd.sublist hsub, fresh_nodup _ _, ?_⟩
+      intro a ha b hb hab
+      have := hlt a (hsub.subset ha)
+      have := (mem_fresh.mp hb).1
+      omega
+    · intro t ht
+      rw [hrel] at ht
+      simp only [pendG, Bool.false_eq_true, if_false, Option.getD_some, ← List.append_assoc] at ht
+      rcases List.mem_append.mp ht with h1 | h2
+      · have := hlt t (hsub.subset h1); simp; omega
+      · exact (mem_fresh.mp h2).2
+  | step =>
+    have ha := hd rfl
+    subst ha
+    simp only [stepOp, hc, armedAfter]
+    cases hpg : s.pgrad with
+    | none =>
+      refine invG_of_sublist h rfl ?_ rfl
+      simp [pendG, hpg]
+    | some g => exact finishStep_ghost_inv c s g 1 hpg h
+
+theorem invG_run (c : Cfg) (hc : c.kind = .ghost) (ops : List Op) (s : St) (armed : Bool)
+    (hd : disciplined armed ops = true) (h : InvG s armed) :
+    ∃ armed', InvG (run c s ops) armed' := by
+  induction ops generalizing s armed with
+  | nil => exact ⟨armed, h⟩
+  | cons o ops ih =>
+    have hstep : o = .step → armed = false := by
+      intro ho; subst ho
+      simp only [disciplined, Bool.and_eq_true, Bool.not_eq_true'] at hd
+      exact hd.1
+    have hrest : disciplined (armedAfter armed o) ops = true := by
+      cases o <;> simp_all [disciplined, armedAfter]
+    exact ih _ _ hrest (invG_step c hc s o armed hstep h)
+
+/-- **ghost_no_double_release_partial**: under the usage discipline "a backward pass or a gradient
+clearing between any two `step()` calls", the ghost-clipping optimizer as coded never hands a
+per-sample gradient to the inner optimizer twice (every finite op sequence). Without the discipline
+it does: `ghost_double_release_counterexample`. -/
+theorem ghost_no_double_release_partial (c : Cfg) (hc : c.kind = .ghost) (σ C : Nat) (ops : List Op)
+    (hd : disciplined false ops = true) :
+    ((releases (run c (init σ C) ops).log).flatten).Nodup := by
+  have h0 : InvG (init σ C) false := by simp [InvG, init, rel, pendG, releases, pendSummed]
+  obtain ⟨armed', hnd, _⟩ := invG_run c hc ops _ false hd h0
+  exact (List.nodup_append.mp hnd).1
+
+/-- the counterexample's sequence violates the discipline; BatchMemoryManager-style loops satisfy it -/
+example : disciplined false [.fwdBwd 2, .signal true, .step, .step] = false := by decide
+example : disciplined false [.signal true, .fwdBwd 2, .step, .optZeroGrad, .signal false, .fwdBwd 1, .step, .optZeroGrad] = true := by decide
+
+
 /-- non-vacuity of the theorems above: a standard BatchMemoryManager-style history -/
 example :
     releases (run ⟨.std, false, false⟩ (init 1 1)
